@@ -846,16 +846,21 @@ func (m *Machine) concreteInt(b BV, why string) int64 {
 }
 
 func (m *Machine) sliceOp(in *ssa.Slice, x, lo, hi, max Value) Value {
-	getI := func(v Value, def int) int {
+	getIT := func(v Value, def int, e ssa.Value) int {
 		if v == nil {
 			return def
 		}
-		return int(m.concreteInt(v.(BV), "slice-bound"))
+		b := v.(BV)
+		x := m.concreteInt(b, "slice-bound")
+		if e != nil && b.W < 64 && isUnsignedType(e.Type()) {
+			x &= int64(1)<<b.W - 1 // unsigned narrow bound: zero-extended
+		}
+		return int(x)
 	}
 	switch xv := x.(type) {
 	case Str:
-		l := getI(lo, 0)
-		h := getI(hi, len(xv.S))
+		l := getIT(lo, 0, in.Low)
+		h := getIT(hi, len(xv.S), in.High)
 		if h < 0 {
 			m.goPanicRuntime(fmt.Sprintf("slice bounds out of range [:%d]", h))
 		}
@@ -870,9 +875,9 @@ func (m *Machine) sliceOp(in *ssa.Slice, x, lo, hi, max Value) Value {
 		}
 		return xv.slice(l, h)
 	case Slice:
-		l := getI(lo, 0)
-		h := getI(hi, xv.len)
-		mx := getI(max, xv.cap)
+		l := getIT(lo, 0, in.Low)
+		h := getIT(hi, xv.len, in.High)
+		mx := getIT(max, xv.cap, in.Max)
 		if max != nil && (mx < 0 || mx > xv.cap) {
 			m.goPanicRuntime(fmt.Sprintf("slice bounds out of range [::%d] with capacity %d", mx, xv.cap))
 		}
@@ -902,9 +907,9 @@ func (m *Machine) sliceOp(in *ssa.Slice, x, lo, hi, max Value) Value {
 		if xv.o == nil {
 			m.goPanicRuntime("invalid memory address or nil pointer dereference")
 		}
-		l := getI(lo, 0)
-		h := getI(hi, n)
-		mx := getI(max, n)
+		l := getIT(lo, 0, in.Low)
+		h := getIT(hi, n, in.High)
+		mx := getIT(max, n, in.Max)
 		if mx < 0 || mx > n || h < 0 || h > mx || l < 0 || l > h {
 			m.goPanicRuntime(fmt.Sprintf("slice bounds out of range [%d:%d:%d] with array length %d", l, h, mx, n))
 		}
